@@ -1,6 +1,7 @@
 from vf.props.common import *
 from vf.props.e4cfg import *
 LEVEL = 'other'
+JOBS = 6      # each obligation runs a portfolio of z3 processes on big-integer polynomials: memory-bound, keep the machine below saturation
 EXPLANATION = ('(1) cbmc, shift covariance: the real rational-stepping kernels (poly-fir0.h: vpoly0, u100_0) from any state: the virtual position '
                'advances by exactly M/L per output and the phase stays in [0,L): M more inputs <=> L more outputs at the same phase (C04 lemma); '
                '(2) cbmc, gain exactly once: the real prepare_poly_fir_coefs writes table(gain m) == m * table(gain 1) for EVERY entry of every '
